@@ -95,6 +95,15 @@ def facts(src):
     except Exception as e:
         reads_only = False
         problems.append('view.py:_call_view does not just iterate over the cached candidate list: %s' % e)
+    mv_stateless = True
+    try:
+        cls = m.find('MultiView')
+        if cls is None:
+            raise T.Unknown('class MultiView not found')
+        T.multiview_stateless(cls)
+    except Exception as e:
+        mv_stateless = False
+        problems.append('config/views.py MultiView keeps state besides views/media_views/accepts: %s' % e)
     if register is None:
         register = ['RegisterAdapter', 'Clear clear_mode_registry']
     coq = (F.HEADER + 'Require Import Verif.Lib.C15Prog.\n'
@@ -109,9 +118,11 @@ def facts(src):
            'Definition register_prog : list instr :=\n  %s.\n'
            '(* _call_view only iterates over the candidate list it got from _find_views (the cached object) *)\n'
            'Definition call_view_reads_only : bool := %s.\n'
-           % ('; '.join(str(T.VIEW_TYPE_IDS[n]) for n in vt), T.coq_prog(lookup), mode, fmode, T.coq_prog(register), F.coq_bool(reads_only)))
+           '(* a MultiView (the object the cache holds) keeps nothing derived from requests: serving only reads it *)\n'
+           'Definition multiview_stateless : bool := %s.\n'
+           % ('; '.join(str(T.VIEW_TYPE_IDS[n]) for n in vt), T.coq_prog(lookup), mode, fmode, T.coq_prog(register), F.coq_bool(reads_only), F.coq_bool(mv_stateless)))
     summary.update({'lookup_prog': T.coq_prog(lookup), 'register_prog': T.coq_prog(register).replace('clear_mode_registry', mode),
-                    'clear_mode': mode, 'clear_mode_fallback': fmode, 'view_types': vt, 'params': T.flat_params(lookup), 'call_view_reads_only': reads_only})
+                    'clear_mode': mode, 'clear_mode_fallback': fmode, 'view_types': vt, 'params': T.flat_params(lookup), 'call_view_reads_only': reads_only, 'multiview_stateless': mv_stateless})
     return {'coq': coq, 'summary': summary, 'problems': problems}
 
 
@@ -128,18 +139,37 @@ def Rg(rq, ctx, name, sec, tag, inj=None, inj2=None):
 
 
 # request history cases: {'hist': [steps]}
-#   request      : {'t':'Q', 'req':1|3, 'ctx':'A'.., 'name':0|1, 'm':'GET'|'POST'|'PUT'}      (through _call_view)
-#   registration : {'t':'V', 'rq':1|2, 'ctx':None|'A'.., 'name':0|1, 'pred':None|'GET'|'POST', 'tag':int}
+#   request      : {'t':'Q', 'req':1|3, 'ctx':'A'.., 'name':0|1, 'm':'GET'|'POST'|'PUT', 'h': Accept header key}  (through _call_view)
+#   registration : {'t':'V', 'rq':1|2, 'ctx':None|'A'.., 'name':0|1, 'pred':None|'GET'|'POST', 'acc':None|'html'|'json', 'tag':int}
 METHODS = ['GET', 'POST', 'PUT']
 PREDS = [None, 'GET', 'POST']
+ACC = {None: None, 'html': 'text/html', 'json': 'application/json'}          # accept= of a view
+HDR = {None: None, 'html': 'text/html', 'json': 'application/json', 'plain': 'text/plain',
+       'jh': 'application/json;q=0.9, text/html;q=0.4'}                      # Accept header of a request
+ACC_ORDER = ['html', 'json']      # server-side order of the default accept view order (text/html before application/json)
 
 
-def Q(req, ctx, m, name=0):
-    return {'t': 'Q', 'req': req, 'ctx': ctx, 'name': name, 'm': m}
+def Q(req, ctx, m, name=0, h=None):
+    return {'t': 'Q', 'req': req, 'ctx': ctx, 'name': name, 'm': m, 'h': h}
 
 
-def V(rq, ctx, pred, tag, name=0):
-    return {'t': 'V', 'rq': rq, 'ctx': ctx, 'name': name, 'pred': pred, 'tag': tag}
+def V(rq, ctx, pred, tag, name=0, acc=None):
+    return {'t': 'V', 'rq': rq, 'ctx': ctx, 'name': name, 'pred': pred, 'acc': acc, 'tag': tag}
+
+
+def offers(h, present):
+    """request.accept.acceptable_offers(multiview.accepts) for the header values used here (WebOb semantics of exact
+    media types / q-values / a missing header), restricted to the media types the multiview has"""
+    srt = [a for a in ACC_ORDER if a in present]
+    if h is None:
+        return srt
+    if h == 'jh':
+        return [a for a in ('json', 'html') if a in present]
+    return [h] if h in present else []
+
+
+def acceptable(a, h):
+    return a is None or h is None or h == a or h == 'jh'
 
 
 def mvtag(T):
@@ -159,31 +189,39 @@ class Book:
     def register(self, v):
         T = (v['rq'], 0 if v['ctx'] is None else CTX[v['ctx']], v['name'])
         mem = self.tri.setdefault(T, {})
+        key = (v['pred'], v['acc'])
+        sfx = '-accept' if v['acc'] else ''
 
         def sl(vt):
             return [T[0], T[1], vt, T[2]]
-        if not mem or (len(mem) == 1 and v['pred'] in mem):
-            self.kinds.append('hist-override' if mem else 'hist-first-view')
-            mem[v['pred']] = v['tag']
+        if not mem or (len(mem) == 1 and key in mem):
+            self.kinds.append(('hist-override' if mem else 'hist-first-view') + sfx)
+            mem[key] = v['tag']
             return ([[sl(0), []], [sl(1), []]] if self.unreg else []) + [[sl(0), [v['tag']]]]
-        self.kinds.append('hist-multiview-conversion' if len(mem) == 1 else
-                          'hist-multiview-member-override' if v['pred'] in mem else 'hist-multiview-add')
-        mem[v['pred']] = v['tag']
+        self.kinds.append(('hist-multiview-conversion' if len(mem) == 1 else
+                           'hist-multiview-member-override' if key in mem else 'hist-multiview-add') + sfx)
+        mem[key] = v['tag']
         return [[sl(0), []], [sl(1), []], [sl(2), [mvtag(T)]]]
 
-    def table(self, m):
+    def table(self, m, h):
         out = []
         for T, mem in sorted(self.tri.items()):
             if len(mem) == 1:
-                (p, g), = mem.items()
-                out.append([g, [g] if p is None or p == m else []])
+                ((p, a), g), = mem.items()
+                out.append([g, [g] if (p is None or p == m) and acceptable(a, h) else []])
             elif mem:
-                a = mem.get(m) if m in mem else mem.get(None)
-                out.append([mvtag(T), [a] if a is not None else []])
+                present = {a for (_, a) in mem if a is not None}
+                ans = None
+                for grp in offers(h, present) + [None]:
+                    for p in (m, None):
+                        if ans is None and (p, grp) in mem:
+                            ans = mem[(p, grp)]
+                out.append([mvtag(T), [ans] if ans is not None else []])
         return out
 
 
 def gen_hist(rng):
+    use_accept = rng.random() < 0.6
     tag = [0]
     tri = []
     steps = []
@@ -197,7 +235,8 @@ def gen_hist(rng):
             name = 0 if rng.random() < 0.9 else 1
             tri.append((rq, ctx, name))
         tag[0] += 1
-        return V(rq, ctx, rng.choice([None, None, 'GET', 'POST', 'POST']), tag[0], name)
+        return V(rq, ctx, rng.choice([None, None, 'GET', 'POST', 'POST']), tag[0], name,
+                 rng.choice([None, None, None, 'html', 'json', 'json']) if use_accept else None)
     for _ in range(rng.choice([1, 2, 2, 3, 4])):
         steps.append(reg())
     lastq = None
@@ -205,10 +244,14 @@ def gen_hist(rng):
         if rng.random() < 0.62:
             if lastq is not None and rng.random() < 0.65:
                 q = dict(lastq)
-                q['m'] = rng.choice(METHODS)
+                if rng.random() < 0.6:
+                    q['m'] = rng.choice(METHODS)
+                if use_accept and rng.random() < 0.4:
+                    q['h'] = rng.choice([None, 'html', 'json', 'json', 'plain', 'jh'])
             else:
                 q = Q(rng.choice([1, 1, 1, 3]), rng.choice(['A', 'B', 'B', 'C', 'C', 'D']), rng.choice(METHODS),
-                      0 if rng.random() < 0.9 else 1)
+                      0 if rng.random() < 0.9 else 1,
+                      rng.choice([None, 'html', 'json', 'json', 'plain', 'jh']) if use_accept else None)
             lastq = q
             steps.append(q)
         else:
@@ -229,6 +272,15 @@ def hist_scenarios():
     # specific guarded view + general unguarded view on different context types of one resource:
     # a request only the general one accepts must not change who answers the next request
     out.append({'hist': [V(1, 'B', 'POST', 1), V(1, 'A', None, 2), Q(1, 'B', 'GET'), Q(1, 'B', 'POST'), Q(1, 'B', 'GET')]})
+    # a MultiView with accept= constituents: a request with an Accept header is served, then the constituent is
+    # REPLACED (same predicates and accept), a non-accept member is replaced, a new accept constituent is added
+    out.append({'hist': [V(1, 'A', None, 1, 0, 'json'), V(1, 'A', None, 2), Q(1, 'A', 'GET', 0, 'json'),
+                         V(1, 'A', None, 3, 0, 'json'), Q(1, 'A', 'GET', 0, 'json'), Q(1, 'A', 'GET', 0, 'html'),
+                         V(1, 'A', None, 4), Q(1, 'A', 'GET', 0, 'plain'), V(1, 'A', None, 5, 0, 'html'),
+                         Q(1, 'A', 'GET', 0, 'html'), Q(1, 'A', 'GET', 0, None), Q(1, 'A', 'GET', 0, 'jh')]})
+    out.append({'hist': [V(1, 'A', None, 1, 0, 'html'), V(1, 'A', 'POST', 2, 0, 'html'), Q(1, 'A', 'POST', 0, 'html'),
+                         Q(1, 'A', 'GET', 0, 'jh'), V(1, 'A', 'POST', 3, 0, 'html'), Q(1, 'A', 'POST', 0, 'html'),
+                         V(1, 'A', None, 4, 0, 'html'), Q(1, 'A', 'GET', 0, 'jh'), Q(1, 'A', 'GET', 0, 'json')]})
     out.append({'hist': [V(1, 'C', 'POST', 1), V(1, 'B', 'GET', 2), V(1, None, None, 3),
                          Q(1, 'C', 'PUT'), Q(1, 'C', 'GET'), Q(1, 'C', 'POST'), Q(1, 'C', 'GET'), Q(3, 'C', 'POST')]})
     return out
@@ -440,11 +492,13 @@ def valid(case):
                 if not isinstance(st, dict):
                     return False
                 if st.get('t') == 'Q':
-                    if set(st) != {'t', 'req', 'ctx', 'name', 'm'} or st['req'] not in (1, 3) or st['m'] not in METHODS \
+                    if set(st) != {'t', 'req', 'ctx', 'name', 'm', 'h'} or st['req'] not in (1, 3) or st['m'] not in METHODS \
+                            or st['h'] not in HDR \
                             or st['ctx'] not in ('A', 'B', 'C', 'D', 'E') or st['name'] not in (0, 1):
                         return False
                 elif st.get('t') == 'V':
-                    if set(st) != {'t', 'rq', 'ctx', 'name', 'pred', 'tag'} or st['rq'] not in (1, 2) \
+                    if set(st) != {'t', 'rq', 'ctx', 'name', 'pred', 'acc', 'tag'} or st['rq'] not in (1, 2) \
+                            or st['acc'] not in ACC \
                             or st['pred'] not in PREDS or st['ctx'] not in (None, 'A', 'B', 'C', 'D', 'E') \
                             or st['name'] not in (0, 1) or not isinstance(st['tag'], int) or not (0 < st['tag'] < 90000):
                         return False
@@ -500,7 +554,7 @@ def to_wire(case):
         for oid, st in enumerate(case['hist']):
             if st['t'] == 'Q':
                 ops.append([0, oid, [st['req'], CTX[st['ctx']], st['name']], []])
-                ans.append([oid, book.table(st['m'])])
+                ans.append([oid, book.table(st['m'], st['h'])])
             else:
                 ops.append([1, oid, book.register(st), [], []])
         return [_sro_tbl, [], ops, ans]
@@ -742,7 +796,7 @@ class _World:
         view.c15_tag = tag
         self.config.add_view(view, context=None if v['ctx'] is None else _impl['classes'][v['ctx']],
                              name=NAMES[v['name']], route_name='r1' if v['rq'] == 2 else None,
-                             request_method=v['pred'])
+                             request_method=v['pred'], accept=ACC[v['acc']])
         T = (v['rq'], 0 if v['ctx'] is None else CTX[v['ctx']], v['name'])
         ctx_iface = _impl['Interface'] if v['ctx'] is None else self.ctx[v['ctx']]
         mv = self.real.registered((IViewClassifier, self.req[v['rq']], ctx_iface), IMultiView, name=NAMES[v['name']])
@@ -757,6 +811,8 @@ class _World:
         from zope.interface import providedBy
         r = Request.blank('/')
         r.method = st['m']
+        if st['h'] is not None:
+            r.headers['Accept'] = HDR[st['h']]
         r.registry = self.reg
         if st['req'] != 1:
             r.request_iface = self.req[st['req']]
